@@ -3,7 +3,7 @@ import ast
 
 from sa import guards as G
 from sa.flow import GuardMap, Provenance, Typestate
-from sa.repo import AnchorError, call_name, calls_in, dotted, norm, walk_no_nested, kwarg
+from sa.repo import ordk, AnchorError, call_name, calls_in, dotted, norm, walk_no_nested, kwarg
 
 MOD = "annet.parallel"
 
@@ -62,7 +62,7 @@ def r1(c):
     inv = [x for x in calls_in(fn) if _is_put(x, "task_queue") and "INVOKE" in norm(x)]
     ok = len(inv) == 1 and gm.in_loop(inv[0]) and norm(gm.in_loop(inv[0])[-1].iter) == "device_ids" and "payload=device_id" in norm(inv[0]).replace(" ", "")
     c.check("C12.R1", bool(ok), repo.loc(m, inv[0] if inv else fn), "irun/one-task-per-id", "not exactly one INVOKE task is queued per submitted id", key_text="tasks")
-    ok = bool(inv) and inv[0].lineno < in_init[0].lineno if in_init and inv else False
+    ok = bool(inv) and ordk(inv[0]) < ordk(in_init[0]) if in_init and inv else False
     c.check("C12.R1", ok, repo.loc(m, fn), "irun/tasks-before-STOPs", "STOP tokens are queued before the tasks: workers would stop before the work is done", key_text="order")
 
 
@@ -192,7 +192,7 @@ def r3(c):
     # run the loop body to a fixpoint through the While node itself
     res = ts.run([loop], "unknown")
     # code after the loop may still drain: look for a drain loop after it
-    after = [st for st in (loop._parent.body if hasattr(loop._parent, "body") else []) if st.lineno > loop.end_lineno]
+    after = [st for st in (loop._parent.body if hasattr(loop._parent, "body") else []) if ordk(st) > ordk(loop) and not any(x is st for x in ast.walk(loop))]
     drains_after = any(isinstance(st, (ast.While, ast.For)) and any(isinstance(x, ast.Call) and isinstance(x.func, ast.Attribute) and x.func.attr in ("get", "get_nowait")
                                                                       and norm(x.func.value) == "done_queue" for x in ast.walk(st)) for st in after)
     c.count("functions")
@@ -242,19 +242,29 @@ def r5(c):
     fn = repo.func(MOD, "Parallel.run")
     c.count("functions")
     gm = GuardMap(fn)
+    pv = Provenance(fn)
+    rets = [n for n in walk_no_nested(fn) if isinstance(n, ast.Return) and isinstance(n.value, ast.Tuple) and len(n.value.elts) == 2 and all(isinstance(e, ast.Name) for e in n.value.elts)]
+    if not rets:
+        raise AnchorError("Parallel.run: `return success, fail` not found")
+    S, F = rets[-1].value.elts[0].id, rets[-1].value.elts[1].id
     st = {}
     for n in walk_no_nested(fn):
-        if isinstance(n, ast.Assign) and isinstance(n.targets[0], ast.Subscript) and norm(n.targets[0].value) in ("success", "fail"):
-            st[norm(n.targets[0].value)] = n
+        if isinstance(n, ast.Assign) and isinstance(n.targets[0], ast.Subscript) and norm(n.targets[0].value) in (S, F):
+            st["success" if norm(n.targets[0].value) == S else "fail"] = n
     ok = set(st) == {"success", "fail"}
+    loop = None
     if ok:
-        ren = lambda s: {"task_result.exc is None": "no_exc"}.get(s, s)
+        lp = gm.in_loop(st["success"])
+        loop = lp[-1] if lp and isinstance(lp[-1], ast.For) and isinstance(lp[-1].target, ast.Name) else None
+        ok = loop is not None and gm.in_loop(st["fail"]) == lp
+    if ok:
+        tr = loop.target.id
+        ren = lambda s_: {f"{tr}.exc is None": "no_exc"}.get(s_, s_)
         fs, ff = gm.formula(st["success"], G.GuardEnv(rename=ren)), gm.formula(st["fail"], G.GuardEnv(rename=ren))
-        ok = G.equivalent(fs, G.Atom("no_exc")) and G.equivalent(ff, G.Not(G.Atom("no_exc"))) and all(norm(x.targets[0].slice) == "task_result.device_id" for x in st.values())
-        ok = ok and norm(st["success"].value) == "task_result.result" and norm(st["fail"].value) == "task_result.exc"
+        ok = G.equivalent(fs, G.Atom("no_exc")) and G.equivalent(ff, G.Not(G.Atom("no_exc"))) and all(norm(x.targets[0].slice) == f"{tr}.device_id" for x in st.values())
+        ok = ok and norm(st["success"].value) == f"{tr}.result" and norm(st["fail"].value) == f"{tr}.exc"
     c.check("C12.R5", ok, repo.loc(m, fn), "run/partition", "results are not split into success/fail by `exc is not None`, keyed by device id, with result/exc as values", key_text="partition")
-    loop = [n for n in fn.body if isinstance(n, ast.For)]
-    ok = bool(loop) and "self.irun(device_ids" in norm(loop[0].iter) and not [x for x in walk_no_nested(loop[0]) if isinstance(x, (ast.Break, ast.Continue, ast.Return))]
+    ok = loop is not None and "self.irun(device_ids" in norm(pv.resolve_alias(loop.iter)) and not [x for x in walk_no_nested(loop) if isinstance(x, (ast.Break, ast.Continue, ast.Return))]
     c.check("C12.R5", ok, repo.loc(m, fn), "run/consumes-all", "run does not consume every result of irun", key_text="consume")
     ir = repo.func(MOD, "Parallel.irun")
     sp = [n for n in walk_no_nested(ir) if isinstance(n, ast.For) and norm(n.iter) == "device_ids" and any(isinstance(x, ast.YieldFrom) for x in ast.walk(n))]
